@@ -693,6 +693,27 @@ def rule_extension_wire_type(ctx):
                   "the extension type is taken from TlsExtensionType::from(&extension) for every variant: tls-parser classifies all 256 types matching 0x?a?a as Grease "
                   "and that conversion returns 0xfafa for them, so a non-GREASE extension such as 0x1a2a is removed by the GREASE filter and is missing from the "
                   "fingerprint (ClientHello with extensions [0x7777, 0x1a2a, 0x8888] records [0x7777, 0x8888])", ctx.loc(b, blk))
+    if n == 0:
+        # the list is not filled with push (`extensions.extend(parsed.iter().map(type_of).filter(..))`): judge the conversion where it is
+        # written - it is applied only to what is not the Grease variant, whose type is read from its own field
+        from ..engine import lists as L_
+        for cb in L_.with_closures(P, b):
+            CS = T.Slicer(cb, P)
+            for blk, t in cb.calls():
+                if not ("TlsExtensionType" in callee_of(t) and callee_of(t).endswith("::from")):
+                    continue
+                n += 1
+                conds = Q.canon_conds(P, T.dom_conds(cb, CS, blk))
+                not_grease = any((c[0] == "variant" and c[2] == "Grease" and c[3] is False) or
+                                 (c[0] == "variant_in" and ((("Grease" in c[2]) != c[3]))) for c in conds)
+                reads_field = any(s_["k"] == "assign" and any(isinstance(x, dict) and x.get("v") == "Grease" or (isinstance(x, dict) and x.get("n") == "Grease")
+                                                               for x in (s_["r"].get("o", {}).get("c") or s_["r"].get("o", {}).get("m") or {}).get("pr", []))
+                                  for _, _, s_ in cb.iter_stmts() if s_["r"].get("k") == "use") or \
+                    any(x[0] == "downcast" and x[2] == "Grease" for (_rb, _j, term, _c) in TB.return_sites(cb, P) for x in T.walk(term))
+                ctx.check(not_grease and reads_field, "R7", "extract:extension-wire-type", "the type of a Grease-classified extension is read from the extension itself",
+                          "the extension type is taken from TlsExtensionType::from(&extension) for every variant: tls-parser classifies all 256 types matching 0x?a?a as Grease "
+                          "and that conversion returns 0xfafa for them, so a non-GREASE extension such as 0x1a2a is removed by the GREASE filter and is missing from the "
+                          "fingerprint (ClientHello with extensions [0x7777, 0x1a2a, 0x8888] records [0x7777, 0x8888])", ctx.loc(cb, blk))
     ctx.floor("R7", "extension-type push sites", n, 1)
 
 
